@@ -163,6 +163,16 @@ def gen_line(ch, cfg, v1):
             which = ch.pick([len(enc) - 1, 0, 6, len(enc) - 3, len(enc) - 2], "nested.field")
             enc[which] = nested
             bad = rsk.rlp_list_of_encoded(enc)[0].hex()
+        elif ch.draw(3, "badblock.coinbase") == 1:
+            # well-formed header whose coinbase transaction field is hostile: the first 8 bytes are
+            # read as the byte counter of a SHA-256 midstate, the next 32 as the midstate
+            h = rsk.gen_header(ch, nfields=ch.pick([19, 20], "cb.nf"), max_cb=100)
+            counter = ch.pick([b"\xff" * 8, b"\x20" + b"\x00" * 7, b"\x1f" + b"\xff" * 7,
+                               b"\x80" + b"\x00" * 7, b"\x00" * 8, b"\x00" * 7 + b"\x01",
+                               ch.bytes(8, "cb.counter")], "cb.counter.kind")
+            tail = ch.bytes(ch.pick([32, 33, 31, 0, 64, 95, 96, 200], "cb.tail.n"), "cb.tail")
+            h["fields"][-1] = counter + tail
+            bad = rsk.rlp_list(h["fields"])[0].hex()
         place = ch.draw(4, "badblock.place")
         if place == 0:
             doc = {"command": "advanceBlockchain", "blocks": [bad], "brothers": [[]], "version": 5}
